@@ -344,7 +344,8 @@ func init() {
 					Case{"doc": Doc{{Deg: "1", Sym: "", Vals: one()}, {Rest: true, Vals: one(), Key: pr[1]}, {Deg: "5", Sym: "", Vals: one()}}, "flags": Flags{Key: pr[0]}, "tracks": 2})
 			}
 			// time signatures at and beyond what the event can carry (one byte for the numerator, one for the exponent)
-			for _, m := range []Frac{{255, 4}, {256, 4}, {300, 4}, {257, 8}, {4, 128}, {4, 256}, {4, 512}, {3, 1}, {1, 1}, {255, 128}, {65536, 4}, {4, 65536}} {
+			for _, m := range []Frac{{255, 4}, {256, 4}, {300, 4}, {257, 8}, {4, 128}, {4, 256}, {4, 512}, {3, 1}, {1, 1}, {255, 128}, {65536, 4}, {4, 65536},
+				{4, 3}, {5, 6}, {7, 12}, {6, 9}, {2, 255}, {3, 127}, {12, 24}} { // (denominators that are no note value: not a power of two)
 				mm := m
 				cases = append(cases,
 					Case{"doc": Doc{{Deg: "1", Sym: "", Vals: one(), Meter: &mm}, {Deg: "5", Sym: "", Vals: one()}}, "flags": Flags{}, "tracks": 1},
